@@ -92,3 +92,21 @@ Definition is_choice (st : strategy) (P : conn -> Prop) (cs : list conn)
          | _ => i <= j
          end)
   end.
+
+(** ---- addConnection: how the pool's connection list is built ----
+    [p.conns = append(p.conns, c); sort.Slice(p.conns, by ID); if len(p.conns) == 1 { p.bestConn = c }]
+    InitializeConnections dials all servers concurrently and calls addConnection in the
+    order the handshakes finish; the id is the index of the server in the configuration.
+    Ids are pairwise different, so the result of the (unstable) sort is determined: the
+    model is insertion sort on the ids. *)
+Fixpoint insert_id (x : nat) (l : list nat) : list nat :=
+  match l with
+  | [] => [x]
+  | y :: t => if Nat.leb x y then x :: l else y :: insert_id x t
+  end.
+Definition sort_ids (l : list nat) : list nat := fold_right insert_id [] l.
+Definition add_connection (pool : list nat) (id : nat) : list nat := sort_ids (pool ++ [id]).
+(** the pool after the connections arrived in the order [arrival] *)
+Definition add_all (arrival : list nat) : list nat := fold_left add_connection arrival [].
+(** bestConn after initialisation: the connection that arrived first *)
+Definition best_after_add (arrival : list nat) : option nat := hd_error arrival.
